@@ -470,6 +470,7 @@ func runC19(c *Ctx) {
 		}
 	}
 	c.floor(R, 5, "Stat, MkdirAll, Exists, the write path and ReadFile")
+	entryNeverRemoved(c, calls)
 
 	// D3 directory mode
 	const RM = "directory-mode"
@@ -1150,6 +1151,28 @@ func runC20(c *Ctx) {
 
 	const R2 = "replace-protocol"
 	c.rule(R2, "in Store: os.CreateTemp(directory, separator-free pattern) → Write on that file with its error checked → Close with its error checked → os.Rename(temp, final), in this order on the success path; nothing else touches the final path except existence tests")
+	entryNeverRemoved(c, calls)
+	// "nothing else touches the final path": the final name is the new name of the rename, the
+	// subject of existence tests, and what Retrieve reads — a hard link or symlink onto it makes the
+	// temporary's half-written inode visible under the entry's name
+	for i, fc := range calls {
+		for j, pc := range fc.paths {
+			if pc.kind != "final" {
+				continue
+			}
+			okUse := false
+			switch fc.name {
+			case "os.Rename":
+				okUse = j == 1
+			case "os.Stat", "os.Lstat", "os.ReadFile", "os.Open", "sigs.k8s.io/release-utils/util.Exists":
+				okUse = true
+			case "os.Remove", "os.RemoveAll", "os.Truncate", "os.WriteFile", "os.Create", "os.OpenFile":
+				okUse = true // judged by entry-never-removed / no-inplace-write
+			}
+			c.check(okUse, R2, fmt.Sprintf("%s#final-path→%s@%d", fc.d.name, shortCallee(fc.name), i), c.P.Pos(fc.call.Pos()), "the final path is only renamed onto, tested and read",
+				fmt.Sprintf("%s is applied to the final entry path (argument %d): the entry's name is bound to a file by something other than the closing rename, so a crash can expose an incomplete file under it", fc.name, j))
+		}
+	}
 	sd := c.decl(R2, storeFn)
 	if sd == nil {
 		return
@@ -1463,4 +1486,30 @@ func wholeReader(d *declInfo, defs map[types.Object]ast.Expr, e ast.Expr, depth 
 		return 0, "reader produced by " + f.FullName()
 	}
 	return 0, "reader " + types.ExprString(e)
+}
+
+// entryNeverRemoved: "an existing entry is neither replaced nor damaged" (and C20's "the complete
+// previously stored document"): the storage code deletes temporaries only. A final entry leaves
+// the directory solely by being renamed over.
+func entryNeverRemoved(c *Ctx, calls []fsCall) {
+	const R = "entry-never-removed"
+	c.rule(R, "every os.Remove / os.RemoveAll / os.Truncate in pkg/storage receives the name of a temporary created by the same function, never the final entry path or the directory")
+	n := 0
+	for _, fc := range calls {
+		switch fc.name {
+		case "os.Remove", "os.RemoveAll", "os.Truncate":
+		default:
+			continue
+		}
+		if len(fc.paths) == 0 {
+			continue
+		}
+		n++
+		construct := fmt.Sprintf("%s#%s@%d", fc.d.name, shortCallee(fc.name), n)
+		c.check(fc.paths[0].kind == "temp", R, construct, c.P.Pos(fc.call.Pos()), "removes a temporary",
+			fmt.Sprintf("%s is applied to %s: a stored entry (or the directory) is deleted by the storage code itself — a refused or failed store damages what was there", fc.name, fc.paths[0].desc))
+	}
+	if n == 0 {
+		c.okTrivial(R, "none", "-", "the storage code removes nothing")
+	}
 }
